@@ -62,6 +62,15 @@ CHECK_DEADLOCK FALSE
 """
 
 
+def _violation(rep, desc):
+    """rep.violation + a histogram of failing clauses in the evidence (report.py prints only the
+    first five violations)."""
+    h = rep.coverage.setdefault("violation_clauses", {})
+    for c in desc.get("clauses", []):
+        h[c] = h.get(c, 0) + 1
+    return rep.violation(desc)
+
+
 def _tpl(name, subst):
     text = open(os.path.join(TPL_DIR, name)).read()
     for k, v in subst.items():
@@ -249,7 +258,7 @@ def model_check(comp: IOComponent, rep: Report, emit=True, workers=1, timeout=15
     res = tlc.run(comp.spec + "MC", MC_CFG_EDGES if emit else MC_CFG_EDGES.replace("ACTION_CONSTRAINT Emit\n", ""),
                   extra_modules={comp.spec + "MC": text}, workers=workers, timeout=timeout)
     if res.invariant_violated:
-        rep.violation({"component": comp.name, "what": f"model violates {res.invariant_violated}",
+        _violation(rep, {"component": comp.name, "what": f"model violates {res.invariant_violated}",
                        "clauses": ["MC:" + res.invariant_violated], "tlc_tail": res.out.splitlines()[-60:]})
         return res, [], []
     tlc.require_ok(res, comp.spec + "MC")
@@ -270,7 +279,7 @@ def model_check(comp: IOComponent, rep: Report, emit=True, workers=1, timeout=15
         res2 = tlc.run(comp.spec + "MC", MC_CFG_HIST, extra_modules={comp.spec + "MC": text_hist},
                        workers=min(NPROCS, 8), timeout=timeout)
         if res2.invariant_violated:
-            rep.violation({"component": comp.name, "what": f"model (history pass) violates {res2.invariant_violated}",
+            _violation(rep, {"component": comp.name, "what": f"model (history pass) violates {res2.invariant_violated}",
                            "clauses": ["MC:" + res2.invariant_violated], "tlc_tail": res2.out.splitlines()[-60:]})
             return res, edges, inits
         tlc.require_ok(res2, comp.spec + "MC(hist)")
@@ -452,7 +461,7 @@ def replay_edges(comp: IOComponent, edges, inits, rep: Report, procs=NPROCS, max
     cov_edges = {}
     for cfg, ncg, nce, cycles, walks, viol, nleft, err in results:
         if err:
-            rep.violation({"component": comp.name, "cfg": cfg, "clauses": ["ReplayException"], "what": err[-1500:]})
+            _violation(rep, {"component": comp.name, "cfg": cfg, "clauses": ["ReplayException"], "what": err[-1500:]})
             continue
         cg += ncg
         cov_edges.setdefault(_key(cfg), set()).update(nce)
@@ -461,7 +470,7 @@ def replay_edges(comp: IOComponent, edges, inits, rep: Report, procs=NPROCS, max
         left_ok += nleft[0]
         left += nleft[1]
         for v in viol:
-            rep.violation({"component": comp.name, "cfg": cfg, "clauses": ["EdgeReplay"],
+            _violation(rep, {"component": comp.name, "cfg": cfg, "clauses": ["EdgeReplay"],
                            "what": "; ".join(v["problems"]), "schedule": v["schedule"],
                            "model_from": v["from"], "model_label": v["lab"], "observed": v["line"]})
     rep.add("edges_total", len(edges))
@@ -555,7 +564,7 @@ def record_traces(comp: IOComponent, jobs_by_cfg, rep: Report, procs=NPROCS, spl
     for out, err, cfg in results:
         traces += out
         if err:
-            rep.violation({"component": comp.name, "cfg": cfg, "clauses": ["BuildOrRunException"], "what": err[-1500:]})
+            _violation(rep, {"component": comp.name, "cfg": cfg, "clauses": ["BuildOrRunException"], "what": err[-1500:]})
     return traces
 
 
@@ -619,7 +628,7 @@ def validate_traces(comp: IOComponent, traces, rep: Report, timeout=2400, self_t
     for r in rej:
         tr = traces[r["tid"] - 1]
         ln = r["line"]
-        rep.violation({"component": comp.name, "cfg": tr["cfg"], "clauses": sorted(r["clauses"]),
+        _violation(rep, {"component": comp.name, "cfg": tr["cfg"], "clauses": sorted(r["clauses"]),
                        "line": ln, "seed": tr.get("seed"), "model_state": r["state"], "ghost": r.get("g"),
                        "observed": _strip(tr["cycles"][ln - 1]),
                        "schedule": [sched_of(c) for c in tr["cycles"][:ln]]})
